@@ -747,6 +747,28 @@ fn invocations(dir: &std::path::Path) -> Vec<Inv> {
         v.push(Inv { args: vec!["verify".into(), p.clone()], expect: None, name: format!("verify on {}", p), stdin: None });
     }
     v.push(Inv { args: vec!["verify".into(), bad_file.display().to_string()], expect: None, name: "verify unparsable program".into(), stdin: None });
+    // long source files: a program with kilobytes to a megabyte of comment lines in front of its code is
+    // the same program (the file is read completely, whatever its size), and a faulty last line makes it
+    // an invalid program however far from the beginning it stands. Sizes around the powers of two.
+    let pad_line = "; pad 0123456789 0123456789 0123456789 0123456789 0123456789 ..\n";
+    for (p, bytes) in [(4usize, 4_000usize), (1, 8_200), (4, 16_400), (1, 32_800), (4, 65_500), (1, 65_600), (4, 131_100), (1, 262_200), (4, 1_048_600)] {
+        let (head, rest) = PROGS[p].1.split_once('\n').expect("header line");
+        let text = format!("{}\n{}{}", head, pad_line.repeat(bytes / pad_line.len() + 1), rest);
+        let f = dir.join(format!("long-{}-{}.asm", PROGS[p].0, bytes));
+        std::fs::write(&f, &text).unwrap();
+        let fs = f.display().to_string();
+        let mut inv = mk(format!("long file {} bytes ({})", text.len(), PROGS[p].0), p, &fs, 60, MachineConfig::default(), vec![], vec![], vec![], None);
+        let ff = match inv.expect { Some(e) => e.4, None => 0 };
+        v.push(inv.clone());
+        inv.args.extend(["verify".to_string(), "--ff".to_string(), ff.to_string()]);
+        inv.name.push_str(" + verify");
+        v.push(inv);
+        let g = dir.join(format!("long-faulty-{}-{}.asm", PROGS[p].0, bytes));
+        std::fs::write(&g, format!("{} FROB R0\n", text)).unwrap();
+        let gs = g.display().to_string();
+        v.push(Inv { args: vec!["run".into(), gs.clone(), "10".into()], expect: None, name: format!("run on a long file ({} bytes) whose last line is faulty", text.len()), stdin: None });
+        v.push(Inv { args: vec!["verify".into(), gs], expect: None, name: format!("verify on a long file ({} bytes) whose last line is faulty", text.len()), stdin: None });
+    }
     v
 }
 
@@ -998,7 +1020,7 @@ pub fn run() {
     ctx.set("traces_validated_against_impl", runs + nproc);
     ctx.set("evaluations", runs + nexp + nproc);
     ctx.set("distinct_nontrivial", distinct);
-    ctx.set("rule", "schedule = (program, configuration, budget N, multiset of interrupt cycles, multiset of reset cycles); every schedule of the stated families is run through RunnerConfig::run and through REF-RUN (the statement's loop on the public Machine API): emulated_cycles and the final Machine (PartialEq) must agree; RunExpectations::verify over all 2^3 stated-field subsets x match/mismatch values on 4 final machines; constructor == setters for every configuration field and pair; a RunnerConfig run twice and with every field assigned anew; error values and rendered messages keep found/expected in their roles; process level: stdout values and exit status of the real binary per invocation (every byte literal in every spelling, 24 argument orders, -vvvv, budgets up to usize::MAX, the program through a pipe)");
+    ctx.set("rule", "schedule = (program, configuration, budget N, multiset of interrupt cycles, multiset of reset cycles); every schedule of the stated families is run through RunnerConfig::run and through REF-RUN (the statement's loop on the public Machine API): emulated_cycles and the final Machine (PartialEq) must agree; RunExpectations::verify over all 2^3 stated-field subsets x match/mismatch values on 4 final machines; constructor == setters for every configuration field and pair; a RunnerConfig run twice and with every field assigned anew; error values and rendered messages keep found/expected in their roles; process level: stdout values and exit status of the real binary per invocation (every byte literal in every spelling, 24 argument orders, -vvvv, budgets up to usize::MAX, the program through a pipe, source files of 4 kB to 1 MB incl. a faulty last line)");
     ctx.set("exhaustive", true);
     ctx.set("bounds", format!("6 programs x 3-5 configurations x budgets 0..={} (+90/120/150 for the ISR program, + 65 600-cycle runs with events on both sides of 2^16, + an event at every cycle); interrupt cycles: all subsets of {{0,1,2,5,N-1,N,N+3}} + all sub-multisets (multiplicity <= 2) of {{1,5,N-1,N/2,N}}, each also in reverse order; reset cycles: all subsets of {} + sub-multisets of {{0,5,N-1}}; {} verify() cases; {} process invocations", max_n, if quick { "{0,5,N-1,N}" } else { "{0,1,5,N-1,N,N+3}" }, nexp, nproc));
     ctx.set("library_runs", runs);
